@@ -36,6 +36,13 @@ impl OverrideEntryPoint {
         let sylvia = crate_module();
         let values = msg_type.emit_ctx_values();
 
+        // The reply entry point receives the already decoded `Reply`, not raw bytes.
+        if let MsgType::Reply = msg_type {
+            return quote! {
+                #entry_point ( #values .into(), msg).map_err(Into::into)
+            };
+        }
+
         quote! {
             #entry_point ( #values .into(), #sylvia ::cw_std::from_json::< #msg_name >(&msg)?)
                 .map_err(Into::into)
